@@ -3,6 +3,9 @@ import json, os
 from veriflib import *
 
 
+MALFORMED = []   # monitor lines that look like records but do not parse: a case that would otherwise vanish silently
+
+
 def jlines(out):
     res = []
     for l in out.splitlines():
@@ -11,7 +14,7 @@ def jlines(out):
             try:
                 res.append(json.loads(l))
             except Exception:
-                pass
+                MALFORMED.append(l[:300])
     return res
 
 
@@ -138,6 +141,11 @@ def generic_monitor(c, name, args, kind, timeout=1800, describe=None):
                 hist.setdefault(key, {}).setdefault(str(r[key]), 0)
                 hist[key][str(r[key])] += 1
     mon["distribution"] = hist
+    if MALFORMED:
+        # a record the harness printed but that is not valid JSON is a case nobody looked at: the machinery's fault, loud
+        mon["malformed_records"] = MALFORMED[:3]
+        c.violation("harness-error", "%s: %d output record(s) of the monitor are not valid JSON" % (name, len(MALFORMED)), {"records": MALFORMED[:3]}, False)
+        del MALFORMED[:]
     if rc != 0 and not rows:
         mon["error"] = out[-500:]
         c.violation("harness-error", "%s: harness exited %d" % (name, rc), {"output": out[-800:]}, False)
@@ -316,6 +324,11 @@ def bdfnum_stream(c):
 def radaunum_stream(c):
     """X-radaunum: the full numeric model of RADAU::solve re-run on the logged right-hand side / Jacobian / mass of real runs"""
     return c.stream("xradaunum", ["xradaunum", c.seed, 150 if c.tier == "quick" else 4000], "radaunum")
+
+
+def fdjac_stream(c):
+    """X-fdjac: the trait's default finite-difference Jacobian next to Model/FdJac.lean (translated increment and quotient)"""
+    return c.stream("xfdjac", ["xfdjac", c.seed, 400 if c.tier == "quick" else 20000], "fdjac")
 
 
 def only_keys(c, prefixes):
@@ -725,7 +738,8 @@ def c01(c):
 
 
 # ---------------------------------------------------------------------------------------------- C14 (stiff)
-C14_THEOREMS = ["RadauCtl.pass_singular", "RadauCtl.failure_cases", "Radau14.c14_radau_constants", "c14_pade23_E", "c14_pade23_negative_real_axis", "c14_pade23_damps"]
+C14_THEOREMS = ["RadauCtl.pass_singular", "RadauCtl.failure_cases", "Radau14.c14_radau_constants", "c14_pade23_E", "c14_pade23_negative_real_axis", "c14_pade23_damps",
+                "FdJac.fdPerturbation_ge", "FdJac.fdPerturbation_pos", "FdJac.entry_affine"]
 
 
 def c14(c):
@@ -734,6 +748,7 @@ def c14(c):
         radau_stream(c)
         radaunum_stream(c)
         bdfnum_stream(c)
+        fdjac_stream(c)
         generic_monitor(c, "stiff_check", ["stiff-check", c.seed, 30 if c.tier == "quick" else 600], "st", timeout=3000)
         generic_monitor(c, "interval_check", ["interval-check", c.seed, 120 if c.tier == "quick" else 2000], "iv")
     only_keys(c, ("c14", "c04-hang"))
